@@ -445,7 +445,7 @@ def file_scenario(ctx, rng, pool, d, i):
             ctx.count(name)
     ctx.count("comment_lines_generated", info["comments"])
     ctx.case(("file", text), nontrivial=bool(entries),
-             sample=dict(kind="file scenario", file=text, probes=probes) if i < 2 else None)
+             sample=dict(kind="file scenario", file=text, probes=probes) if i < 1 else None)
     if multi:
         ctx.count("files_with_multi_host_lines")
     if conflicts:
